@@ -59,6 +59,10 @@ pub struct OpOpts {
     pub max_depth: usize,
     /// approximate number of selections in the whole document
     pub budget: usize,
+    /// relative weight of a named-fragment spread among the selections of a set (a field has 60)
+    pub spread_weight: u32,
+    /// probability (of 256) that a spread re-uses a fragment defined earlier when one fits
+    pub reuse_bias: u32,
 }
 
 impl Default for OpOpts {
@@ -81,6 +85,8 @@ impl Default for OpOpts {
             null_in_custom_scalar_list: false,
             max_depth: 3,
             budget: 40,
+            spread_weight: 14,
+            reuse_bias: 110,
         }
     }
 }
@@ -106,6 +112,8 @@ impl OpOpts {
             null_in_custom_scalar_list: false,
             max_depth: 3,
             budget: 30,
+            spread_weight: 14,
+            reuse_bias: 110,
         }
     }
 }
@@ -367,9 +375,14 @@ impl<'a, 'c, 'd> G<'a, 'c, 'd> {
             .values()
             .filter(|d| d.locations.iter().any(|l| l == location))
             .filter(|d| {
+                // `@skip` / `@include` are applied as their definition IN FORCE says (a schema may
+                // re-define them, see `gen::builtin_redef`: more or fewer locations, repeatable).
+                // apollo's subscription rule is about the names, so `conditional_ok` only matters
+                // for the three selection locations.
                 let cond = d.name == "skip" || d.name == "include";
                 if cond {
-                    self.o.skip_include && conditional_ok && self.s.user_directives.iter().all(|u| u != &d.name)
+                    let on_selection = matches!(location, "FIELD" | "FRAGMENT_SPREAD" | "INLINE_FRAGMENT");
+                    self.o.skip_include && (conditional_ok || !on_selection)
                 } else {
                     self.o.directives
                 }
@@ -535,7 +548,7 @@ impl<'a, 'c, 'd> G<'a, 'c, 'd> {
         for _ in 0..n {
             let can_nest = nest < self.o.max_depth + 2 && self.budget > 0;
             let w_inline = if self.o.inline_fragments && can_nest { 14 } else { 0 };
-            let w_spread = if self.o.fragments && can_nest { 14 } else { 0 };
+            let w_spread = if self.o.fragments && can_nest { self.o.spread_weight } else { 0 };
             let w_dup = if self.o.overlapping && out.iter().any(|s| matches!(s, Selection::Field(_))) { 8 } else { 0 };
             let w_excl = if self.o.overlapping && self.o.abstract_types && self.o.inline_fragments && can_nest && self.s.possible_types(parent).len() >= 2 { 8 } else { 0 };
             match self.c.weighted(&[60, w_inline, w_spread, w_dup, w_excl]) {
@@ -614,7 +627,7 @@ impl<'a, 'c, 'd> G<'a, 'c, 'd> {
     fn spread(&mut self, parent: &str, depth: usize, nest: usize) -> Selection {
         let overl = overlapping_types(self.s, parent);
         let reuse: Vec<usize> = (0..self.frags.len()).filter(|&i| !self.frags[i].sub_root && overl.contains(&self.frags[i].def.type_condition)).collect();
-        let name = if !reuse.is_empty() && self.c.bool(110) {
+        let name = if !reuse.is_empty() && self.c.bool(self.o.reuse_bias) {
             self.frags[reuse[self.c.choose(reuse.len())]].def.name.clone()
         } else {
             let tc = self.type_condition(parent);
@@ -803,4 +816,12 @@ pub fn simple_field(c: &mut Choices, schema: &RefSchema, def: &FieldDef, alias: 
         vec![]
     };
     Field { alias, name: def.name.clone(), args, directives: vec![], selection_set }
+}
+
+/// Constant arguments valid for the argument definitions `defs` (required ones, some optional
+/// ones).
+pub fn const_arguments(c: &mut Choices, schema: &RefSchema, defs: &[InputValueDef]) -> Vec<(String, Value)> {
+    let o = OpOpts { variables: false, ..OpOpts::default() };
+    let mut g = G { c, s: schema, o: &o, keys: BTreeMap::new(), pool: vec![], frags: vec![], budget: 0, next_alias: 0 };
+    g.arguments(defs, false)
 }
